@@ -185,6 +185,7 @@ func (sc *StateCache) Get(key, blockHash string) (Value, bool) {
 		// commit publishes the link of a block after all of its values, so a
 		// value that was missing before the link became visible may be there
 		// now: look again before moving on to the previous block
+		vyield("get:versions.recheck", key, blockHash)
 		vv, ok = bvs.Get(blockHash)
 		if !ok {
 			blockHash = prevHash.(string)
